@@ -73,6 +73,16 @@ def previous(ctx: Any) -> List[Ob]:
     return previous_obligations(ctx, 'C04.PREVIOUS')
 
 
+@rule('C04.EXPIRY', 'N', expect_min=2)
+def expiry(ctx: Any) -> List[Ob]:
+    """Removal by expiry reaches every browser: the periodic purge reports the records it removed through the same
+    notification routine as a response, which hands one collection to each listener in turn -- so what is passed must be
+    re-iterable (a generator would be exhausted by the first listener and the other browsers would never report Removed)."""
+    from .c05 import purge_report_obligations
+
+    return purge_report_obligations(ctx, 'C04.EXPIRY')
+
+
 @rule('C04.PRECEDENCE', 'D', expect_min=12)
 def precedence(ctx: Any) -> List[Ob]:
     """Decision table of the pending-event merge over (new event) x (pending
@@ -228,4 +238,4 @@ EXPLANATION = (
     'condition): both delivery overrides deliver each pending item once and clear the map. Not decided: alternation and equality '
     'with the cache over all histories [X].'
 )
-RULES = [aftercache, previous, precedence, classify, flush]
+RULES = [aftercache, previous, expiry, precedence, classify, flush]
